@@ -775,6 +775,16 @@ impl AutosarModel {
         let copy = Self::new();
         let mut filemap = HashMap::new();
 
+        // the root element of the copy carries the same attributes and comment as the original root element
+        {
+            let orig_root = self.root_element();
+            let copy_root = copy.root_element();
+            let orig_locked = orig_root.0.read();
+            let mut copy_locked = copy_root.0.write();
+            copy_locked.attributes = orig_locked.attributes.clone();
+            copy_locked.comment = orig_locked.comment.clone();
+        }
+
         for orig_file in self.files() {
             let filename = orig_file.filename();
             let new_file = copy.create_file(filename.clone(), orig_file.version())?;
